@@ -99,7 +99,7 @@ def search():
     return None
 
 
-def search2():
+def search2(skip_known=True):
     """two union-typed parameters under and / or with a nested condition (the union of the per-member-pair results),
     and the UNKNOWN argument kind (docs: parameter with a default under *args / **kwargs of unknown size)"""
     from replay.checkcode import check_code
@@ -141,6 +141,39 @@ def search2():
             got = set(revealed.get(first + ci, "").replace(" ", "").split("|"))
             if got != want:
                 return f"evaluator body\n{body_src(b, 1)}call ev({x}, {y}): revealed {revealed.get(first + ci)!r}, the union of the per-member results is {' | '.join(sorted(want))}"
+    # statements in sequence: returns collected from earlier, partially matching ifs are kept when a later if returns on every path
+    seq_bodies = [
+        ("    if is_of_type(a, int):\n        return str\n    if is_of_type(b, str):\n        return bytes\n    else:\n        return float\n",
+         lambda e: "str" if e["a"] == "int" else ("bytes" if e["b"] == "str" else "float")),
+        ("    if is_of_type(a, int):\n        return str\n    if is_of_type(b, str):\n        return bytes\n    return float\n",
+         lambda e: "str" if e["a"] == "int" else ("bytes" if e["b"] == "str" else "float")),
+    ]
+    if not skip_known:
+        # known finding D51: narrowing learnt in a nested if that does not return on every path is not carried to later statements
+        seq_bodies = [("    if is_of_type(a, int):\n        if is_of_type(b, int):\n            return str\n    if is_of_type(b, str):\n        return bytes\n    else:\n        return float\n",
+                       lambda e: "str" if (e["a"] == "int" and e["b"] == "int") else ("bytes" if e["b"] == "str" else "float"))]
+    for src_body, fn in seq_bodies:
+        lines = ["from typing import Union", "from pyanalyze.extensions import evaluated, is_of_type", "@evaluated",
+                 "def ev(a: Union[int, str], b: Union[int, str]):", src_body.rstrip("\n"),
+                 "def ev(a: object, b: object) -> object:", "    return a", "def use(u: Union[int, str], v: Union[int, str]) -> None:"]
+        first = len("\n".join(lines).split("\n")) + 1
+        calls = [(x, y) for x in args for y in args]
+        for x, y in calls:
+            lines.append(f"    reveal_type(ev({x}, {'v' if y == 'u' else y}))")
+        res = check_code("\n".join(lines) + "\n")
+        revealed = {f["lineno"]: re.search(r"'(.*)'", f["description"]).group(1) for f in res if f["code"].name == "reveal_type"}
+        for ci, (x, y) in enumerate(calls):
+            want = {fn({"a": xt, "b": yt}) for xt in args[x] for yt in args[y]}
+            got = set(revealed.get(first + ci, "").replace(" ", "").split("|"))
+            if got != want:
+                return f"evaluator body\n{src_body}call ev({x}, {y}): revealed {revealed.get(first + ci)!r}, the union of the per-member results is {' | '.join(sorted(want))}"
+    # a union with an Any member: under the default exclude_any, Any matches no tested type, so it takes the else branch only
+    code_any = ("from typing import Any, Union\nfrom pyanalyze.extensions import evaluated, is_of_type\n@evaluated\ndef strict(x: object):\n    if is_of_type(x, str):\n        return str\n    else:\n        return int\n"
+                "def strict(x: object) -> object:\n    return x\ndef use(ai: Union[Any, int], si: Union[str, int], a: Any) -> None:\n    reveal_type(strict(ai))\n    reveal_type(strict(si))\n    reveal_type(strict(a))\n")
+    res = check_code(code_any)
+    rv = [re.search(r"'(.*)'", f["description"]).group(1) for f in sorted(res, key=lambda f: f["lineno"]) if f["code"].name == "reveal_type"]
+    if rv != ["int", "str | int", "int"] and rv != ["int", "int | str", "int"]:
+        return f"is_of_type under the default exclude_any: strict(Any | int), strict(str | int), strict(Any) reveal {rv}; Any only matches Any, so the expected results are int, str | int, int"
     # UNKNOWN kinds
     code = """from typing import Any, Dict, List
 from pyanalyze.extensions import evaluated, is_provided, is_keyword, is_positional
@@ -186,6 +219,11 @@ def use(kw: Dict[str, int], ar: List[int]) -> None:
     return None
 
 
+def w_d51(rec):
+    msg = search2(skip_known=False)
+    return bool(msg), msg or "the nested-if narrowing case agrees with the per-member union now"
+
+
 def r_c20(rec):
     msg = search() or search2()
     if msg:
@@ -198,6 +236,7 @@ KERNELS = ["pyanalyze.type_evaluation.ConditionEvaluator.visit_Call", "pyanalyze
            "pyanalyze.type_evaluation.unite_varmaps"]
 REPLAYERS = {k: r_c20 for k in KERNELS}
 REPLAYERS["C20.bounded"] = r_c20
+REPLAYERS["C20.D51"] = w_d51
 
 if __name__ == "__main__":
     print(search()); print(search2())
